@@ -177,6 +177,7 @@ fn serve_entropy(buf: &mut [u8], path: u8) -> bool {
     if !ACTIVE.load(Ordering::SeqCst) {
         return false;
     }
+    let _rt = crate::rt::RtGuard::enter();
     let node = NODE.with(|n| n.get());
     if node >= 0 {
         crate::rt::reacquire_if_lost();
@@ -233,10 +234,65 @@ pub unsafe extern "C" fn getrandom(buf: *mut libc::c_void, len: libc::size_t, fl
     libc::syscall(libc::SYS_getrandom, buf, len, flags) as libc::ssize_t
 }
 
+/// Seam 4: `syscall(2)` as std's futex-based Mutex / RwLock / Once / Condvar / park see it. A
+/// futex wait of a node thread that is executing code under test does not sleep in the kernel:
+/// the node parks in the runtime until another node's wake on the same word, so contended locks
+/// *inside the code under test* are scheduling points the simulator decides. Everything else is
+/// passed to the kernel unchanged. (x86-64 SysV: the variadic arguments of `syscall` arrive in
+/// the same registers / stack slot as fixed ones.)
+#[cfg(all(target_arch = "x86_64", target_os = "linux"))]
+#[no_mangle]
+pub unsafe extern "C" fn syscall(num: libc::c_long, a1: libc::c_long, a2: libc::c_long, a3: libc::c_long, a4: libc::c_long, a5: libc::c_long, a6: libc::c_long) -> libc::c_long {
+    unsafe fn raw(num: libc::c_long, a1: libc::c_long, a2: libc::c_long, a3: libc::c_long, a4: libc::c_long, a5: libc::c_long, a6: libc::c_long) -> libc::c_long {
+        let ret: libc::c_long;
+        std::arch::asm!("syscall", inlateout("rax") num => ret, in("rdi") a1, in("rsi") a2, in("rdx") a3, in("r10") a4, in("r8") a5, in("r9") a6, lateout("rcx") _, lateout("r11") _, options(nostack));
+        if (-4095..0).contains(&ret) {
+            *libc::__errno_location() = (-ret) as libc::c_int;
+            -1
+        } else {
+            ret
+        }
+    }
+    if num == libc::SYS_futex && crate::rt::FUTEX_SIM.load(Ordering::Relaxed) {
+        let op = (a2 as libc::c_int) & 0x7f & !(libc::FUTEX_PRIVATE_FLAG | libc::FUTEX_CLOCK_REALTIME);
+        let node = NODE.try_with(|n| n.get()).unwrap_or(-1);
+        let sim = node >= 0 && crate::rt::in_job();
+        if op == libc::FUTEX_WAIT || op == libc::FUTEX_WAIT_BITSET {
+            if sim && a1 != 0 {
+                let word = &*(a1 as *const std::sync::atomic::AtomicU32);
+                if word.load(Ordering::SeqCst) != a3 as u32 {
+                    *libc::__errno_location() = libc::EAGAIN;
+                    return -1;
+                }
+                match crate::rt::sim_futex_wait(a1 as usize, a4 != 0) {
+                    0 => return 0,
+                    -1 => {} // not under the scheduler: real wait below
+                    e => {
+                        *libc::__errno_location() = e;
+                        return -1;
+                    }
+                }
+            }
+        } else if op == libc::FUTEX_WAKE || op == libc::FUTEX_WAKE_BITSET {
+            let n = (a3 as libc::c_int).max(0) as u32;
+            // wakes issued by the runtime itself (scheduler thread, or a node inside the runtime /
+            // a seam) concern real waiters only
+            let woken = if sim || (node < 0 && !crate::rt::is_sched_thread()) { crate::rt::sim_futex_wake(a1 as usize, n) } else { 0 };
+            let real = if woken < n { raw(num, a1, a2, (n - woken) as libc::c_long, a4, a5, a6) } else { 0 };
+            if woken > 0 && sim && crate::rt::FUTEX_WAKE_YIELDS.load(Ordering::Relaxed) {
+                crate::rt::yield_point(crate::rt::YieldKind::Explicit);
+            }
+            return real.max(0) + woken as libc::c_long;
+        }
+    }
+    raw(num, a1, a2, a3, a4, a5, a6)
+}
+
 /// Seam 1: the wall clock.
 #[no_mangle]
 pub unsafe extern "C" fn clock_gettime(clk: libc::clockid_t, ts: *mut libc::timespec) -> libc::c_int {
     if clk == libc::CLOCK_REALTIME && ACTIVE.load(Ordering::SeqCst) && !ts.is_null() {
+        let _rt = crate::rt::RtGuard::enter();
         let node = NODE.with(|n| n.get());
         if node >= 0 {
             crate::rt::reacquire_if_lost();
